@@ -8,7 +8,7 @@
        transcription with the proposed non-finite fix has no "non-finite-float" failure left. *)
 EXTENDS ValueLit, ValueLitMenu, TLC, Json
 CONSTANTS Depth,          \* 2 or 3
-          Full            \* TRUE: containers over every ordered pair of leaves (thorough)
+          Full            \* TRUE: three pairings of the leaves instead of one (thorough)
 
 (* ---------- descriptor constructors ---------- *)
 DNil == [k |-> "nil"]
@@ -54,9 +54,8 @@ Leaves == <<
 
 (* ---------- container menu ---------- *)
 Singles(S) == [x \in 1..Len(S) |-> <<S[x]>>]
-NeighbourPairs(S) == [x \in 1..Len(S) |-> <<S[x], S[(x % Len(S)) + 1]>>]
-AllPairs(S) == [x \in 1..(Len(S) * Len(S)) |-> <<S[((x - 1) \div Len(S)) + 1], S[((x - 1) % Len(S)) + 1]>>]
-KidLists(S, full) == Singles(S) \o (IF full THEN AllPairs(S) ELSE NeighbourPairs(S))
+StridePairs(S, k) == [x \in 1..Len(S) |-> <<S[x], S[((x + k - 1) % Len(S)) + 1]>>]      \* (S[x], S[x + k]) cyclically
+KidLists(S, full) == Singles(S) \o StridePairs(S, 1) \o (IF full THEN StridePairs(S, 7) \o StridePairs(S, 19) ELSE <<>>)
 StrKeys == <<kb, ka, kB, kE, kQ, kLt, <<>>, kScr>>
 StrKey(x) == StrKeys[((x - 1) % Len(StrKeys)) + 1]
 \* a map[string]any whose entries are listed in NON-sorted order for most x
@@ -119,8 +118,8 @@ Kids2 == <<DNilSlice(0), DSlice(0, <<>>), DSlice(0, <<DNil, F64(f15)>>), DSlice(
 Wrap(S) == [x \in 1..Len(S) |-> DPtr(S[x])]
          \o [x \in 1..Len(S) |-> S3(I64(n0), I64(n7), S[x], S[(x % Len(S)) + 1])]
          \o [x \in 1..Len(S) |-> S2(I64(n0), DStr(<<>>), S[x], DNilPtr, DSlice(0, <<S[x]>>), F64(n0), DMap("string", <<E(kb, S[x])>>), DBool(0), DBytes(1, <<>>))]
-Depth2 == ContainersOver(Kids2, FALSE) \o Wrap(Kids2)
-Kids3 == Pick(Depth2, 7)
+Depth2 == ContainersOver(Kids2, Full) \o Wrap(Kids2)
+Kids3 == Pick(Depth2, IF Full THEN 5 ELSE 7)
 Depth3 == ContainersOver(Kids3, FALSE) \o Wrap(Kids3)
 
 Descs == Leaves \o Depth1 \o (IF Depth >= 2 THEN Depth2 ELSE <<>>) \o (IF Depth >= 3 THEN Depth3 ELSE <<>>)
